@@ -624,6 +624,10 @@ def run(tier, seed):
     # certificate for the NAF recoding (what the NAF-based harnesses assume of their digit vectors): induction over the real loop
     from checks import c04naf
     tasks += c04naf.harnesses(rep, "serial64", build.ir("serial64", "O0"), tier)
+    # the variable-time algorithms for ALL 256 digit positions: induction over their real main (and scan) loops, checks/c04vt.py
+    from checks import c04vt
+    tasks += c04vt.harnesses(rep, "serial64", build.ir("serial64", "O0"), tier, None, "serial")
+    tasks += c04vt.harnesses(rep, "simd", build.ir("simd", "O0"), tier, "avx2", "vector (AVX2)")
     tasks += vector_harnesses(rep, "simd", build.ir("simd", "O0"), tier, "avx2")
     tasks += vartime_harnesses(rep, "simd", build.ir("simd", "O0"), tier, backend="avx2")
     # the AVX-512 IFMA copies (unstable_avx512 build, nightly toolchain)
@@ -631,6 +635,7 @@ def run(tier, seed):
         a5 = build.ir("avx512", "O0")
         tasks += vector_harnesses(rep, "avx512", a5, tier, "avx512")
         tasks += vartime_harnesses(rep, "avx512", a5, tier, backend="avx512")
+        tasks += c04vt.harnesses(rep, "avx512", a5, tier, "avx512", "vector (IFMA)")
         tasks.append(lambda: pippenger_harness(rep, "avx512", a5, "vector (IFMA) Pippenger n=2 (w=6)", "vp_g_pippenger_dispatch", 2, 2, "2 points, all radix-64 digit vectors (all scalars)", backend="avx512"))
         tasks.append(lambda: none_harness(rep, "avx512", a5, "vector (IFMA) Pippenger: None point => None", "vp_g_pippenger_dispatch", 3, backend="avx512"))
     except build.BuildError as e: rep.add(harness="avx512/build", config="avx512", function="build", status="inconclusive", why=str(e)[-400:], goals=[], wall_s=0)
